@@ -493,3 +493,29 @@ func H_C20_earlier_dump_unchanged() {
 	vAssert(vSameJSON(d1, vRefJSON(reflect.ValueOf(a))) && len(d2) > 0, "C20 the earlier dump is still the document of its value")
 	vReach("end")
 }
+
+// field names beyond ASCII letters: Go exports a field exactly when its name starts with an upper-case
+// letter (any script); names starting with '_' or a lower-case non-ASCII letter are unexported, the blank
+// field is no field at all
+type vJNames struct {
+	_rev  string
+	_     int
+	A     int
+	ñame  string
+	Épée  string
+	Ωmega int
+	z_    string
+	Z_    string
+	N     struct {
+		_id string
+		Id  string
+		Ñu  int
+	}
+}
+
+func H_C20_field_name_classes() {
+	v := vJNames{_rev: "r", A: vPickInt("A"), ñame: "n", Épée: vJSONText("E", 1), Ωmega: 3, z_: "z", Z_: "Z"}
+	v.N._id, v.N.Id, v.N.Ñu = "i", "I", 7
+	vC20Check("field names of every class", v)
+	vC20Check("field names of every class, by pointer", &v)
+}
